@@ -493,7 +493,8 @@ MiB = 1024 * 1024
 
 
 @st.composite
-def real_scale_cases(draw, types=('upload', 'download', 'copy')):
+def real_scale_cases(draw, types=('upload', 'download', 'copy'),
+                     need_subs=False):
     """Unscaled ChunksizeAdjuster (5 MiB..5 GiB, 10 000 parts) and MiB-sized
     payloads: a thin class that keeps the scaled-limits trick honest."""
     thr = draw(st.sampled_from([5 * MiB, 6 * MiB, 8 * MiB]))
@@ -507,6 +508,8 @@ def real_scale_cases(draw, types=('upload', 'download', 'copy')):
          'subs': draw(st.sampled_from([[], [{'size': False,
                                              'raise_done': False,
                                              'reenter': {}}]]))}
+    if need_subs:
+        t['subs'] = [{'size': False, 'raise_done': False, 'reenter': {}}]
     if typ == 'upload':
         t['src'] = draw(st.sampled_from(['path', 'seek', 'nonseek']))
         t['start'] = draw(st.sampled_from([0, 3]))
